@@ -8,6 +8,9 @@ wt = f"/tmp/st-{name}"
 subprocess.run(["git", "-C", "/repo", "worktree", "remove", "--force", wt], capture_output=True)
 subprocess.run(["git", "-C", "/repo", "worktree", "add", "--detach", wt], capture_output=True, check=True)
 res = {"seed": name, "property": pid}
+# the evidence file of the property belongs to runs on /repo itself: keep it across this scratch run
+_ev = f"/verif/evidence/{pid}.json"
+_ev_saved = open(_ev).read() if os.path.exists(_ev) else None
 try:
     shutil.copy("/repo/src/qutip_qip/version.py", wt + "/src/qutip_qip/version.py")
     env = dict(os.environ, PYTHONPATH=wt + "/src", PYTHONHASHSEED="0")
@@ -31,5 +34,7 @@ try:
         res["tail"] = c.stdout.splitlines()[-3:]
 finally:
     subprocess.run(["git", "-C", "/repo", "worktree", "remove", "--force", wt], capture_output=True)
+    if _ev_saved is not None:
+        open(_ev, "w").write(_ev_saved)
 json.dump(res, open(os.path.join(d, f"result_{pid}.json"), "w"), indent=1)
 print(json.dumps({k: res.get(k) for k in ("seed", "property", "applies", "demo_rc_without", "demo_rc_with", "check_rc", "detected", "concrete", "check_wall")}))
